@@ -15,6 +15,7 @@ Proved: `C06_partial` (= the full statement under `NoEviction`), `C06_static` (s
 import Verif.Lemmas.StateCacheWitness
 import Verif.Lemmas.StateCacheBound
 import Verif.Lemmas.StateCacheDrop
+import Verif.Lemmas.StateCacheDistinct
 import Verif.Lemmas.StateCacheLink
 import Verif.Lemmas.StateCachePublish
 namespace Verif.Props.C06
@@ -70,6 +71,29 @@ theorem noEviction_of_counts (capK maxDepth : Nat) (ops : List (Op H K B V))
     NoEviction (Sys.new capK maxDepth) ops :=
   Sys.run_noEviction capK maxDepth ops _ (fun _ => 0) 0 (Len.init capK maxDepth)
     (fun k => by simpa using hK k) (by simpa using hC) hR
+
+/-- `noEviction_of_distinct`: the tight static condition — exactly the negation of the harness's matcher for the open
+    finding. `Sys.cands s k ops` lists, along the history, the blocks that can receive an entry in the version map of
+    `k` (the block a state-level lookup of `k` is issued at; the hash of a committed block cache that writes `k`),
+    `Sys.commitCands` the committed hashes. If for every key those blocks are among at most `capK` DISTINCT ones (a list
+    `LK k` of length ≤ capK contains them all), the committed hashes among at most `maxDepth`, and no `Remove` occurs,
+    no LRU ever evicts. -/
+theorem noEviction_of_distinct (capK maxDepth : Nat) (ops : List (Op H K B V)) (LK : K → List B) (LC : List B)
+    (hLK : ∀ k, (LK k).length ≤ capK) (hLC : LC.length ≤ maxDepth)
+    (hk : ∀ k b, b ∈ (Sys.new capK maxDepth : Sys H K B V).cands k ops → b ∈ LK k)
+    (hc : ∀ b ∈ (Sys.new capK maxDepth : Sys H K B V).commitCands ops, b ∈ LC)
+    (hR : ∀ op ∈ ops, op.isRemove = false) :
+    NoEviction (Sys.new capK maxDepth) ops :=
+  Sys.run_noEviction_distinct ⟨hLK, hLC⟩ ops _ (Dist.init capK maxDepth LK LC) hk hc hR
+
+/-- `C06_distinct`: the full statement under the negation of the open finding's matcher: at most `capK` distinct candidate
+    blocks per key, at most `maxDepth` distinct committed blocks, no `Remove`. -/
+theorem C06_distinct (capK maxDepth : Nat) (ops : List (Op H K B V)) (LK : K → List B) (LC : List B)
+    (hLK : ∀ k, (LK k).length ≤ capK) (hLC : LC.length ≤ maxDepth)
+    (hk : ∀ k b, b ∈ (Sys.new capK maxDepth : Sys H K B V).cands k ops → b ∈ LK k)
+    (hc : ∀ b ∈ (Sys.new capK maxDepth : Sys H K B V).commitCands ops, b ∈ LC)
+    (hR : ∀ op ∈ ops, op.isRemove = false) : AllOK (Sys.new capK maxDepth) [] ops :=
+  C06_partial capK maxDepth ops (noEviction_of_distinct capK maxDepth ops LK LC hLK hLC hk hc hR)
 
 /-- `C06_static`: the full statement for every history that stays within the static counts — no run-time hypothesis. -/
 theorem C06_static (capK maxDepth : Nat) (ops : List (Op H K B V))
@@ -244,6 +268,11 @@ def sampleHistory : List (Op Nat Nat Nat Nat) :=
 
 example : NoEviction (Sys.new 200 2000 : Sys Nat Nat Nat Nat) sampleHistory := by
   unfold NoEviction; decide
+
+/-- the distinct-blocks condition holds for `sampleHistory` with a per-key capacity of only 4 (blocks 10..13) although it
+    has 4 commits and 11 lookups of the key — the operation-count condition of `noEviction_of_counts` would need 15 -/
+example : ∀ b, b ∈ (Sys.new 4 4 : Sys Nat Nat Nat Nat).cands 0 sampleHistory → b ∈ [10, 11, 12, 13] := by
+  decide
 
 example : ((Sys.new 200 2000 : Sys Nat Nat Nat Nat).run sampleHistory).2 =
     [.ok, .ok, .ok, .ok, .ok, .ok, .ok, .ok, .hit 2, .hit 1, .ok, .hit 2, .ok,
